@@ -271,7 +271,7 @@ def run_tlc(
     cfg_path = os.path.join(sdir, f"{module}.cfg")
     with open(cfg_path, "w") as fh:
         fh.write(cfg)
-    cmd = ["java", "-XX:+UseParallelGC", f"-Xmx{heap}", "-Xss64m"]
+    cmd = ["java", "-XX:+UseParallelGC", f"-Xmx{heap}", "-Xss64m", f"-Djava.io.tmpdir={sdir}"]   # TLC leaves tlc-* directories there
     if dfs_queue:
         cmd.append("-Dtlc2.tool.queue.IStateQueue=StateDeque")
     cmd += ["-cp", TLA_CP, "tlc2.TLC", "-workers", str(workers), "-metadir",
